@@ -387,3 +387,63 @@ func (r *runner) scL0Ret() {
 	r.opSyncAndWait()
 	r.opClose()
 }
+
+// bigTx commits one transaction of about kb KiB (larger than the sync budget of scenario chunked).
+func (r *runner) bigTx(kb int) {
+	must(r.astep(func() error {
+		tx, err := r.app.Begin()
+		if err != nil {
+			return err
+		}
+		for n := 0; n < kb*1024; {
+			b := r.blob()
+			if _, err := tx.Exec(`INSERT INTO t(id, v) VALUES(?, ?)`, r.nextID, b); err != nil {
+				_ = tx.Rollback()
+				return err
+			}
+			r.nextID++
+			n += len(b)
+		}
+		return tx.Commit()
+	}), "big transaction")
+}
+
+// scChunked: a WAL backlog larger than MaxSyncWALBytes before one DB.Sync / SyncAndWait, so that the sync
+// runs as several bounded chunks (each publishes an L0 file); budgets: one frame, 16 KiB, 64 KiB (by seed);
+// then the same with a checkpoint threshold low enough that a checkpoint runs inside the same syncLocked.
+func (r *runner) scChunked() {
+	budget := []int64{4096 + 24, 16 << 10, 64 << 10}[r.rng.Intn(3)]
+	kb := int(budget/1024)*2 + 8
+	r.db.MaxSyncWALBytes = budget
+	if !r.opOpen() {
+		return
+	}
+	r.insert()
+	r.opSyncAndWait()
+	for i := 0; i < r.rounds; i++ {
+		r.bigTx(kb)
+		r.bigTx(kb)
+		r.bigTx(kb)
+		r.opSync()
+		r.opUpload()
+	}
+	r.bigTx(kb)
+	r.bigTx(kb)
+	r.opSyncAndWait()
+	r.bigTx(kb) // a single transaction larger than the budget
+	r.opSyncAndWait()
+	r.opClose()
+	r.newLS()
+	r.db.MaxSyncWALBytes = budget
+	r.db.MinCheckpointPageN = 10
+	if !r.opOpen() {
+		return
+	}
+	r.bigTx(kb)
+	r.bigTx(kb)
+	r.bigTx(kb)
+	r.opSyncAndWait()
+	r.insert()
+	r.opSyncAndWait()
+	r.opClose()
+}
